@@ -40,7 +40,7 @@ var c16Reqs = []c16Req{
 	{"GET absent only-if-cached", "GET", "http://example.com/absent", []string{"Cache-Control", "only-if-cached"}},
 }
 
-var c16States = []string{"empty", "fresh", "stale+swr", "stale+must-revalidate", "two-variants", "stale+swr bodiless"}
+var c16States = []string{"empty", "fresh", "stale+swr", "stale+must-revalidate", "two-variants", "stale+swr bodiless", "stale, Last-Modified only"}
 
 // c16Programs: all unordered pairs (with repetition) and a fixed set of triples.
 func c16Programs() [][]int {
@@ -76,6 +76,9 @@ func c16Prologue(w *world.W, state string, backdate time.Duration) {
 		w.Do(world.Req("GET", U, "X-A", "1"))
 	case "stale+must-revalidate":
 		answer(w, mk("max-age=5, must-revalidate"))
+		w.Do(world.Req("GET", U, "X-A", "1"))
+	case "stale, Last-Modified only": // validated in the foreground with If-Modified-Since alone
+		answer(w, RS{Status: 200, H: H("Cache-Control", "max-age=5, must-revalidate", "Vary", "X-A", "Last-Modified", httpDate(time.Now().Add(-backdate-time.Hour)), "Date", date())})
 		w.Do(world.Req("GET", U, "X-A", "1"))
 	case "two-variants":
 		answer(w, mk("max-age=5, stale-while-revalidate=100000"))
@@ -337,7 +340,11 @@ func TestC16Race(t *testing.T) {
 	for _, prog := range c16Programs() {
 		for _, state := range c16States {
 			for round := 0; round < rounds; round++ {
-				w := world.New(world.Opt{})
+				opt := world.Opt{}
+				if round%2 == 1 {
+					opt.DSN = "memcache://" // the built-in memory backend instead of the recording one
+				}
+				w := world.New(opt)
 				w.NoWait = true
 				c16Prologue(w, state, 20*time.Second)
 				w.Origin.Handler = c16OriginHandler(nil, state, nil)
